@@ -1108,4 +1108,159 @@ theorem trial_roundtrip {s : NodeIds} (h : NodeInv s) (hp : PoolInv s) :
     have : ((s.n + 1 - 1 : Nat) : Int) = (s.n : Int) := by simp
     rw [this, or_assoc]
 
+
+/-! ### the `*_invalidates_sorted` removals and `rebuild_sorted_global` -/
+
+/-- two valid slots never hold the same global id -/
+def LiveDistinct (s : NodeIds) : Prop :=
+  ∀ v w, 0 ≤ s.global.getD v (-1) → s.global.getD v (-1) = s.global.getD w (-1) → v = w
+
+/-- what survives the removals that do not maintain the sorted arrays -/
+structure WeakInv (s : NodeIds) : Prop where
+  free : FreeInv s
+  distinct : LiveDistinct s
+
+theorem NodeInv.weak {s : NodeIds} (h : NodeInv s) : WeakInv s :=
+  ⟨h.free, fun _ _ hv he => live_unique h hv he⟩
+
+theorem freeSlot_WeakInv {s t : NodeIds} (h : WeakInv s) {v : Nat} (hv : 0 ≤ s.global.getD v (-1))
+    (hg : t.global = s.global.set v s.blank) (hb : t.blank = index2next v) (hn : t.n = s.n - 1) :
+    WeakInv t := by
+  have hvlen : v < s.global.length := lt_length_of_getD_nonneg hv
+  have hbneg : s.blank < 0 := by
+    obtain ⟨⟨l, hc, _, _⟩, _⟩ := h.free
+    exact hc.head_neg
+  refine ⟨(freeSlot_FreeInv h.free hv).congr hg hb hn, ?_⟩
+  intro a b ha he
+  rw [hg] at ha he
+  have hav : a ≠ v := by
+    intro e; subst e; rw [getD_set_self hvlen] at ha; omega
+  have hbv : b ≠ v := by
+    intro e; subst e; rw [getD_set_self hvlen, getD_set_ne hav] at he
+    rw [getD_set_ne hav] at ha; omega
+  rw [getD_set_ne hav] at ha he
+  rw [getD_set_ne hbv] at he
+  exact h.distinct a b ha he
+
+theorem removeInvalidatesSorted_WeakInv {s : NodeIds} (h : WeakInv s) {node : Int}
+    (hv : s.validSlot node = true) :
+    (s.removeInvalidatesSorted node).1 = .ok ∧ WeakInv (s.removeInvalidatesSorted node).2 := by
+  obtain ⟨_, hv2⟩ := validSlot_iff.1 hv
+  simp only [removeInvalidatesSorted, hv, Bool.not_true, Bool.false_eq_true, if_false, true_and]
+  exact freeSlot_WeakInv h hv2 rfl rfl rfl
+
+theorem removeWithoutGlobalInvalidatesSorted_WeakInv {s : NodeIds} (h : WeakInv s) {node : Int}
+    (hv : s.validSlot node = true) :
+    (s.removeWithoutGlobalInvalidatesSorted node).1 = .ok ∧
+      WeakInv (s.removeWithoutGlobalInvalidatesSorted node).2 := by
+  obtain ⟨_, hv2⟩ := validSlot_iff.1 hv
+  simp only [removeWithoutGlobalInvalidatesSorted, hv, Bool.not_true, Bool.false_eq_true, if_false, true_and]
+  exact freeSlot_WeakInv h hv2 rfl rfl rfl
+
+theorem isNondecr_iff : ∀ (l : List Int), isNondecr l = true ↔ l.Pairwise (· ≤ ·)
+  | [] => by simp [isNondecr]
+  | [_] => by simp [isNondecr]
+  | a :: b :: rest => by
+    have ih := isNondecr_iff (b :: rest)
+    simp only [isNondecr, Bool.and_eq_true, decide_eq_true_eq, ih]
+    constructor
+    · rintro ⟨hab, hp⟩
+      refine List.pairwise_cons.2 ⟨?_, hp⟩
+      intro x hx
+      rcases List.mem_cons.1 hx with rfl | hx
+      · exact hab
+      · exact Int.le_trans hab ((List.pairwise_cons.1 hp).1 x hx)
+    · intro hp
+      obtain ⟨h1, h2⟩ := List.pairwise_cons.1 hp
+      exact ⟨h1 b (by simp), h2⟩
+
+/-- the checked sorting permutation: a permutation of the indices that makes the keys non-decreasing -/
+theorem sortIdx_spec (keys : List Int) :
+    (sortIdx keys).Perm (List.range keys.length) ∧
+      ((sortIdx keys).map fun i => keys.getD i 0).Pairwise (· ≤ ·) := by
+  unfold sortIdx
+  simp only
+  split
+  · rename_i hc
+    simp only [sortsCheck, Bool.and_eq_true, beq_iff_eq] at hc
+    refine ⟨?_, (isNondecr_iff _).1 hc.2⟩
+    have := List.mergeSort_perm (heapSortIdx keys) (fun a b => decide (a ≤ b))
+    rw [hc.1] at this
+    exact this.symm
+  · refine ⟨List.mergeSort_perm _ _, ?_⟩
+    unfold mergeIdx
+    rw [List.pairwise_map]
+    have := List.pairwise_mergeSort (le := fun i j => decide (keys.getD i 0 ≤ keys.getD j 0))
+      (fun a b c hab hbc => by
+        simp only [decide_eq_true_eq] at hab hbc ⊢; exact Int.le_trans hab hbc)
+      (fun a b => by
+        simp only [Bool.or_eq_true, decide_eq_true_eq]; exact Int.le_total _ _)
+      (List.range keys.length)
+    exact this.imp (fun h => by simpa using h)
+
+theorem map_getD_range {α} (l : List α) (d : α) : (List.range l.length).map (fun i => l.getD i d) = l := by
+  apply List.ext_getElem
+  · simp
+  · intro i h1 h2
+    simp [List.getD_eq_getElem?_getD, h2]
+
+theorem mem_livePairs {s : NodeIds} {p : Int × Nat} :
+    p ∈ s.livePairs ↔ s.global.getD p.2 (-1) = p.1 ∧ 0 ≤ p.1 := by
+  simp only [livePairs, List.mem_filter, List.mem_zipIdx_iff_getElem?, decide_eq_true_eq, ge_iff_le]
+  constructor
+  · rintro ⟨h1, h2⟩
+    exact ⟨by rw [List.getD_eq_getElem?_getD, h1]; rfl, h2⟩
+  · rintro ⟨h1, h2⟩
+    have hl : p.2 < s.global.length := lt_length_of_getD_nonneg (by rw [h1]; exact h2)
+    rw [getD_eq_getElem' hl] at h1
+    exact ⟨by rw [List.getElem?_eq_getElem hl, h1], h2⟩
+
+theorem livePairs_length (s : NodeIds) : s.livePairs.length = s.global.countP (fun x => decide (0 ≤ x)) := by
+  have h1 : (s.livePairs.map Prod.fst) = s.global.filter (fun x => decide (0 ≤ x)) := by
+    simp only [livePairs]
+    rw [show (fun gv : Int × Nat => decide (gv.1 ≥ 0)) = (fun x => decide (0 ≤ x)) ∘ Prod.fst from rfl,
+      ← List.filter_map, List.zipIdx_map_fst]
+  rw [List.countP_eq_length_filter, ← h1, List.length_map]
+
+theorem livePairs_keys_nodup {s : NodeIds} (hd : LiveDistinct s) : (s.livePairs.map Prod.fst).Nodup := by
+  rw [List.nodup_iff_pairwise_ne, List.pairwise_map]
+  have hz : s.global.zipIdx.Pairwise (fun a b => a.2 ≠ b.2) := by
+    have : (s.global.zipIdx.map Prod.snd).Nodup := by
+      rw [List.zipIdx_map_snd]; exact List.nodup_range'
+    rw [List.nodup_iff_pairwise_ne, List.pairwise_map] at this
+    exact this
+  have hp : s.livePairs.Pairwise (fun a b => a.2 ≠ b.2) := hz.sublist List.filter_sublist
+  refine hp.imp_of_mem ?_
+  intro a b ha hb hne heq
+  obtain ⟨ha1, ha2⟩ := mem_livePairs.1 ha
+  obtain ⟨hb1, _⟩ := mem_livePairs.1 hb
+  exact hne (hd a.2 b.2 (by rw [ha1]; exact ha2) (by rw [ha1, hb1]; exact heq))
+
+/-- `ref_node_rebuild_sorted_global` re-establishes the full invariant -/
+theorem rebuild_NodeInv {s : NodeIds} (h : WeakInv s) : NodeInv s.rebuild := by
+  obtain ⟨hperm, hsorted⟩ := sortIdx_spec (s.livePairs.map Prod.fst)
+  have hperm' : s.rebuild.sorted.Perm s.livePairs := by
+    have := hperm.map (fun i => s.livePairs.getD i (0, 0))
+    rw [List.length_map, map_getD_range] at this
+    exact this
+  have hkeys : s.rebuild.keys = (sortIdx (s.livePairs.map Prod.fst)).map
+      (fun i => (s.livePairs.map Prod.fst).getD i 0) := by
+    simp only [keys, rebuild, List.map_map]
+    apply List.map_congr_left
+    intro i _
+    simp [List.getD_eq_getElem?_getD, List.getElem?_map]
+    cases s.livePairs[i]? <;> rfl
+  refine ⟨h.free.congr rfl rfl rfl, ?_, ?_, ?_, ?_⟩
+  · have hnd : s.rebuild.keys.Nodup := by
+      have : s.rebuild.keys.Perm (s.livePairs.map Prod.fst) := hperm'.map _
+      exact this.nodup_iff.2 (livePairs_keys_nodup h.distinct)
+    rw [hkeys] at hnd ⊢
+    exact (hsorted.and (List.nodup_iff_pairwise_ne.1 hnd)).imp (fun ⟨h1, h2⟩ => by omega)
+  · intro p hp
+    exact mem_livePairs.1 (hperm'.mem_iff.1 hp)
+  · intro v hv
+    exact hperm'.mem_iff.2 (mem_livePairs.2 ⟨rfl, hv⟩)
+  · rw [hperm'.length_eq, livePairs_length]
+    exact h.free.count.symm
+
 end Refine.Model.NodeIds
